@@ -45,7 +45,7 @@ class C03(Check):
                    'events after a boundary received on_error / on_completed are invisible to the subscriber (RxPY AutoDetachObserver) and are not judged']
     ANCHORS = ['rxsci/data/roll.py', 'rxsci/data/split.py', 'rxsci/data/time_split.py', 'rxsci/operators/group_by.py', 'rxsci/operators/tee_map.py',
                'rxsci/operators/multiplex.py', 'rxsci/state/with_store.py', 'rxsci/mux/muxobservable.py', 'rxsci/mux/muxconnectable.py']
-    REQUIRED_TAGS = ['depth>=3', 'empty-source', 'single-item', 'scale', 'several-streams-on-one-store', 'a-key-producing-operator-whose-function-raises'] + ['history-fed-more-than-the-judged-stream'] + PRELUDE_TAGS
+    REQUIRED_TAGS = ['depth>=3', 'empty-source', 'single-item', 'scale', 'several-streams-on-one-store', 'a-key-producing-operator-whose-function-raises', 'group_by-under-several-simultaneously-live-parents'] + ['history-fed-more-than-the-judged-stream'] + PRELUDE_TAGS
     REQUIRED_OBSERVED = ['boundary:' + k for k in KINDS] + ['events:create', 'events:next', 'events:completed', 'events:on_completed']
 
     def generate(self, rng, tier, shard, nshards):
@@ -74,6 +74,17 @@ class C03(Check):
                     pr, _ = gen.gen_pipeline(rng, 'i', rng.randint(1, 3), o)
                     streams.append({'prog': pr, 'items': gen.gen_items(rng, n=rng.choice([0, 1, 3, 8, 15]), hi=12, sorted_=True)})
                 yield {'multi': streams, 'oseed': rng.randrange(1 << 30), 'resubscribe': rng.randrange(m)}
+                continue
+            if k % 40 == 14:
+                # a group_by inside an operator that keeps SEVERAL parent keys live at the same time and closes one of them mid-stream
+                # (overlapping roll, group_by / split / group_by ...): the groups of the younger parents outlive the older parent
+                inner = [['group_by', 'mod:%d' % rng.randint(2, 4), [rng.choice([['count', True], ['to_list'], ['scan', 'acc_add', 'zero', False, None]])]]]
+                w = rng.randint(2, 6)
+                outer = [['roll', w, rng.randint(1, w - 1), inner],
+                         ['group_by', 'mod:2', [['split', 'div:%d' % rng.randint(2, 4), inner]]],
+                         ['group_by', 'mod:2', [['roll', w, rng.randint(1, w - 1), inner]]],
+                         ['group_by', 'mod:3', [['time_split', {'active': rng.choice([3, 5]), 'inactive': None, 'closing': None, 'include': True}, inner]]]][(k // 40) % 4]
+                yield {'prog': [outer], 'items': gen.gen_items(rng, n=rng.choice([8, 16, 30]), hi=12, sorted_=True), 'overlapping_parents': True}
                 continue
             if k % 40 == 24:
                 # the user function of a KEY-PRODUCING operator raises on some records (a split field that is None on a leading
@@ -226,6 +237,8 @@ class C03(Check):
             out.fail('protocol:' + v['kind'], boundary=v['boundary'], key=v['key'], extra=v['extra'], event_index=v['event_index'],
                      n_violations=len(mon.violations), stream_error=repr(snap.err))
             return out
+        if case.get('overlapping_parents'):
+            out.tags.append('group_by-under-several-simultaneously-live-parents')
         if case.get('faulty_ctx'):
             out.tags.append('a-key-producing-operator-whose-function-raises')
             out.observed['runs_where_a_key_function_raised:' + ('stream ended with the error' if snap.err is not None else 'stream went on')] += 1
